@@ -41,3 +41,28 @@ package loading
 //@ loop #4
 //@   invariant [only_unexcluded] forall x string :: {inStrs(filteredInputs, x)} inStrs(filteredInputs, x) ==> !(has(excludeMap, x) && excludeMap[x])
 //@   invariant [kept_unless_excluded] forall i int :: {resolvedInputs[i]} 0 <= i && i <= rangeindex && !excludedBy(excludeInputs, resolvedInputs[i]) ==> inStrs(filteredInputs, resolvedInputs[i])
+
+// C16/C11: several BUILD files of one directory are merged into one package; a label defined twice is an error, and no
+// definition of either side is lost or replaced.
+//@ func mergePackages(from, into) (err)
+//@   requires [distinct] from != into && (into.Targets == nil || from.Targets != into.Targets) && (into.Aliases == nil || from.Aliases != into.Aliases)
+//@   requires [existing_objects] allocated(from.Targets) && allocated(from.Aliases) && allocated(into.Targets) && allocated(into.Aliases)
+//@   requires [maps_of_different_types_are_different_objects] (into.Targets == nil || (into.Targets != into.Aliases && into.Targets != from.Aliases)) && (into.Aliases == nil || into.Aliases != from.Targets) && (from.Targets == nil || from.Targets != from.Aliases)
+//@   modifies into.Targets, into.Aliases, contents(into.Targets), contents(into.Aliases)
+//@   ensures [all_targets_merged] err == nil ==> forall k label.TargetLabel :: {has(from.Targets, k)} has(from.Targets, k) ==> has(into.Targets, k) && into.Targets[k] == from.Targets[k]
+//@   ensures [all_aliases_merged] err == nil ==> forall k label.TargetLabel :: {has(from.Aliases, k)} has(from.Aliases, k) ==> has(into.Aliases, k) && into.Aliases[k] == from.Aliases[k]
+//@   ensures [duplicate_target_rejected] err == nil ==> forall k label.TargetLabel :: {has(from.Targets, k)} has(from.Targets, k) ==> !(old(into.Targets) != nil && old(has(into.Targets, k)))
+//@   ensures [duplicate_alias_rejected] err == nil ==> forall k label.TargetLabel :: {has(from.Aliases, k)} has(from.Aliases, k) ==> !(old(into.Aliases) != nil && old(has(into.Aliases, k)))
+//@   ensures [existing_targets_kept] old(into.Targets) != nil ==> into.Targets == old(into.Targets) && (forall k label.TargetLabel :: {has(into.Targets, k)} old(has(into.Targets, k)) ==> has(into.Targets, k) && into.Targets[k] == old(into.Targets[k]))
+//@   ensures [existing_aliases_kept] old(into.Aliases) != nil ==> into.Aliases == old(into.Aliases) && (forall k label.TargetLabel :: {has(into.Aliases, k)} old(has(into.Aliases, k)) ==> has(into.Aliases, k) && into.Aliases[k] == old(into.Aliases[k]))
+//@ loop #1
+//@   invariant [maps_fixed] into.Targets != nil && into.Aliases != nil && (old(into.Targets) != nil ==> into.Targets == old(into.Targets)) && (old(into.Aliases) != nil ==> into.Aliases == old(into.Aliases)) && into.Targets != from.Targets
+//@   invariant [seen_merged] forall k label.TargetLabel :: {seen(k)} seen(k) && has(from.Targets, k) ==> has(into.Targets, k) && into.Targets[k] == from.Targets[k] && !(old(into.Targets) != nil && old(has(into.Targets, k)))
+//@   invariant [existing_kept] old(into.Targets) != nil ==> (forall k label.TargetLabel :: {has(into.Targets, k)} old(has(into.Targets, k)) ==> has(into.Targets, k) && into.Targets[k] == old(into.Targets[k]))
+//@   invariant [aliases_untouched] old(into.Aliases) != nil ==> (forall k label.TargetLabel :: {has(into.Aliases, k)} has(into.Aliases, k) == old(has(into.Aliases, k)) && into.Aliases[k] == old(into.Aliases[k]))
+//@ loop #2
+//@   invariant [maps_fixed] into.Targets != nil && into.Aliases != nil && (old(into.Targets) != nil ==> into.Targets == old(into.Targets)) && (old(into.Aliases) != nil ==> into.Aliases == old(into.Aliases)) && into.Aliases != from.Aliases
+//@   invariant [seen_merged] forall k label.TargetLabel :: {seen(k)} seen(k) && has(from.Aliases, k) ==> has(into.Aliases, k) && into.Aliases[k] == from.Aliases[k] && !(old(into.Aliases) != nil && old(has(into.Aliases, k)))
+//@   invariant [existing_kept] old(into.Aliases) != nil ==> (forall k label.TargetLabel :: {has(into.Aliases, k)} old(has(into.Aliases, k)) ==> has(into.Aliases, k) && into.Aliases[k] == old(into.Aliases[k]))
+//@   invariant [targets_done] (forall k label.TargetLabel :: {has(from.Targets, k)} has(from.Targets, k) ==> has(into.Targets, k) && into.Targets[k] == from.Targets[k] && !(old(into.Targets) != nil && old(has(into.Targets, k)))) &&
+//@        (old(into.Targets) != nil ==> (forall k label.TargetLabel :: {has(into.Targets, k)} old(has(into.Targets, k)) ==> has(into.Targets, k) && into.Targets[k] == old(into.Targets[k])))
